@@ -64,30 +64,20 @@ def run_chunk(items):
     except subprocess.TimeoutExpired:
         return [], "timeout"
     out = p.stdout.decode("utf-8", "replace")
-    fails, done = [], None
+    fails, done, last = [], None, None
     for line in out.splitlines():
-        if line.startswith("FAIL "):
+        if line.startswith("P "):
+            last = int(line[2:])
+        elif line.startswith("FAIL "):
             _, ci, st, key, msg = line.split(" ", 4)
             fails.append((int(ci), int(st), key, msg))
         elif line.startswith("DONE "):
             done = [int(x) for x in line.split()[1:]]
     if p.returncode != 0 or done is None:
-        return fails, "harness died rc=%s: %s" % (p.returncode, p.stderr.decode("utf-8", "replace")[-800:])
+        return fails, (last, "harness died rc=%s (-14 = no answer from the library within 20 s): %s" % (p.returncode, p.stderr.decode("utf-8", "replace")[-800:]))
     if done[0] != len(items):
         raise MachineryError("c13 harness consumed %d of %d cases" % (done[0], len(items)))
     return fails, None
-
-
-def first_crash(items):
-    lo, hi = 0, len(items)
-    while hi - lo > 1:
-        mid = (lo + hi) // 2
-        _, died = run_chunk(items[lo:mid])
-        if died:
-            hi = mid
-        else:
-            lo = mid
-    return lo
 
 
 def replay_all(ck, cases, engine, tag):
@@ -101,16 +91,25 @@ def replay_all(ck, cases, engine, tag):
     bad = 0
     for chunk, (fails, died) in zip(chunks, res):
         guard = 0
-        while died and guard < 5:
+        while died:
+            if died == "timeout":
+                raise MachineryError("c13 harness timed out")
+            last, text = died
+            pos = next((k for k, it_ in enumerate(chunk) if it_[0] == last), None)
+            if pos is None:
+                raise MachineryError("c13 harness died before the first case: " + text)
+            idx, case, e = chunk[pos]
             guard += 1
-            i = first_crash(chunk)
-            idx, case, e = chunk[i]
-            _, d2 = run_chunk([chunk[i]])
+            _, d2 = run_chunk([chunk[pos]])
             if d2:
-                ck.violation("crash:" + tag, "harness crashed on this behaviour: " + d2[-500:], {"engine": e, "case": case})
+                ck.violation("crash:" + ("gen" if e else "interp"), "%s: harness crashed or hung on this behaviour: %s" % (tag, d2[1][-500:]),
+                             {"engine": e, "case": case})
                 bad += 1
-            chunk = chunk[i + 1:]
+            chunk = chunk[pos + 1:]
             if not chunk:
+                break
+            if guard >= 10:
+                ck.violation("crash:many", "%s: more than 10 crashes in one chunk; %d behaviours not replayed" % (tag, len(chunk)), {"engine": e, "case": case})
                 break
             f2, died = run_chunk(chunk)
             fails += f2
@@ -246,7 +245,7 @@ def replay(path):
     case, engine = d["case"]["case"], d["case"]["engine"]
     fails, died = run_chunk([(0, case, engine)])
     if died or fails:
-        print("replay: still failing:", died or fails)
+        print("replay: still failing:", died[1] if died else fails)
         print("VIOLATION property=%s replay=%s" % (PROP, path))
         return 1
     print("replay: passes")
